@@ -1,6 +1,6 @@
+import Grexv.Lemmas.SortCases
 import Grexv.Lemmas.EndToEndRV
 import Grexv.Props.C09
-import Grexv.Props.C10
 
 import Grexv.Lemmas.Lex
 import Grexv.Lemmas.EndToEnd
@@ -28,7 +28,7 @@ def SegOK (env : Env) : Prop := ∀ w, (env.segOf w).flatten = w ∧ ∀ p ∈ e
 
 /-- **S1** every test case is still in the stored list (sorting and de-duplication lose nothing) -/
 theorem s1_keeps_every_test_case (ws : List Str) (w : Str) (h : w ∈ ws) : w ∈ sortCases ws :=
-  (Props.C10.sortCases_mem ws w).mpr h
+  (sortCases_mem' ws w).mpr h
 
 /-- **S1 (case-insensitive)** a test case is replaced by its lower-cased form only when the number of
 code points is preserved -/
@@ -287,7 +287,8 @@ theorem repetitions_sound_any_anchor (cfg : Config) (env : Env) (ws : List Str) 
 /-- **C01 with repetition conversion, end to end on the model, all inputs** (`-r` with positive thresholds; every subset of the class
 options, with or without capturing groups and `-e`; case-sensitive, plain printing, any anchors — with both disabled whichever of its
 three candidates `RegExp::from` keeps): for every list of
-test cases each of at most 1000 graphemes (the regex crate's bound on a repetition count), every segmentation meeting its contract and
+test cases each of at most 1000 graphemes (the largest count the Spec model of `regex-syntax` reads; the real crate accepts larger
+counts up to its compiled-size limit, which is not modelled), every segmentation meeting its contract and
 every non-empty test case `t`: the text `Display for RegExp` writes is accepted by the model of `Regex::new`, and the compiled pattern
 matches `t` in full.
 Chain: S1–S4 (`rep_pipeline_sound`: the converted cluster expands to the test case after class conversion), S5 (the trie stands for it
